@@ -425,12 +425,16 @@ def perimMagic (k : List Int) : Nat :=
 
 /-- `mh.convolve(perim.astype(uint8), _perimeter_magic)`: default mode `reflect` through `fix_offset`;
     the mask is symmetric, so the flip of the convolution is invisible; sums ≤ 49 fit `uint8` -/
+def perimTerm (shape : List Nat) (perim : List Bool) (i : Nat) (k : List Int) : Nat :=
+  match fixPos .reflect shape (addPos (unravelI shape i) k) with
+  | some q => if perim.getD (ravelI shape q) false then perimMagic k else 0
+  | none => 0
+
+def perimConvAt (shape : List Nat) (perim : List Bool) (i : Nat) : Nat :=
+  (nb9.map (perimTerm shape perim i)).foldl (· + ·) 0
+
 def perimConv (shape : List Nat) (perim : List Bool) : List Nat :=
-  (List.range perim.length).map fun i =>
-    (nb9.map fun k =>
-      match fixPos .reflect shape (addPos (unravelI shape i) k) with
-      | some q => if perim.getD (ravelI shape q) false then perimMagic k else 0
-      | none => 0).foldl (· + ·) 0
+  (List.range perim.length).map (perimConvAt shape perim)
 
 /-- class of a histogram bin in `_perimeter_values`: 1 ↦ weight 1, 2 ↦ √2, 3 ↦ (1+√2)/2, 0 ↦ weight 0 -/
 def perimClass (v : Nat) : Nat :=
